@@ -35,6 +35,7 @@ class Runner:
         self.shrink_budget = 45.0 if tier == "quick" else 240.0
         self.budget_hit = False
         self.journal = os.environ.get("PCDVERIF_JOURNAL")
+        self.current = None
 
     def eval_case(self, case, counting=True):
         """Evaluate one case. Returns None or raises Violation (unknown ones only)."""
@@ -44,6 +45,7 @@ class Runner:
         case = norm(case)
         if counting:
             self.rec.evaluations += 1
+        self.current = (time.time(), case)      # read by the watchdog thread
         if self.journal:
             # crash journal (sanitizer builds): the case is on disk before it runs
             with open(self.journal, "w") as jf:
@@ -52,7 +54,10 @@ class Runner:
                 os.fsync(jf.fileno())
         try:
             try:
-                self.check.run(case, self.rec)
+                try:
+                    self.check.run(case, self.rec)
+                finally:
+                    self.current = None
             except (Violation, HarnessError, Skip):
                 raise
             except RecursionError:
@@ -299,6 +304,24 @@ def main(argv=None):
             raise HarnessError("no check %s in %s" % (a.check, a.prop))
         chk = checks[a.check]
         r = Runner(a.prop, chk, a.tier, a.seed, a.shard, a.nshards)
+        # watchdog: a single case that does not come back (a library that loops forever) must not hold the whole run for the worker's
+        # hour-long limit. A time limit is never a verdict: the shard ends as *inconclusive* (harness error, exit 2) and names the case.
+        limit = float(os.environ.get("PCDVERIF_CASE_LIMIT", "1200" if a.tier == "quick" else "3600"))
+
+        def watchdog():
+            while True:
+                time.sleep(5)
+                cur = r.current
+                if cur is not None and time.time() - cur[0] > limit:
+                    out = {"prop": a.prop, "check": a.check, "shard": a.shard, "status": "harness_error", "rec": r.rec.dump(), "rule": chk.rule,
+                           "exhaustive": False, "wall_s": time.time() - t0,
+                           "error": "inconclusive: one case did not terminate within %d s (time limits are not verdicts): %s" % (limit, json.dumps(short(enc(cur[1])))[:1500])}
+                    with open(a.out + ".tmp", "w") as f:
+                        json.dump(out, f)
+                    os.replace(a.out + ".tmp", a.out)
+                    os._exit(2)
+        import threading
+        threading.Thread(target=watchdog, daemon=True).start()
         if a.replay:
             with open(a.replay) as f:
                 rp = json.load(f)
